@@ -305,6 +305,26 @@ def rule_dot(ctx):
     ctx.ob("C19.DOT", win, "the windows parser rejects '.' and '..'", ok, "the windows parser accepts '.'/'..' entries", construct="windows:dot")
 
 
+def rule_noswallow(ctx):
+    """'reports a line it cannot parse instead of dropping it': the stream wrappers do not swallow reader errors (shared with C01.THRU);
+    and every normal result of the server's command reader is a (verb, argument) pair - the dispatcher re-arms the read only for pairs"""
+    from .c01 import rule_thru
+    ctx.borrow(rule_thru, {"C01.THRU": "C19.THRU"})
+    p = ctx.p
+    ctx.rule("C19.PAIR", "every normal return of parse_command is a (verb, argument) pair")
+    pc = p.method("Server", "parse_command")
+    rets = [r for r in walk_no_nested(pc) if isinstance(r, ast.Return)]
+    falls = any(out[0] == "fall" for ev, out in enum_paths(p, pc))
+    ok = bool(rets) and all(isinstance(deep_expand(p, r.value, pc), ast.Tuple) and len(deep_expand(p, r.value, pc).elts) == 2 for r in rets if True) and not falls and all(r.value is not None for r in rets)
+    ctx.ob("C19.PAIR", pc, "parse_command returns a 2-tuple on every normal path", ok,
+           "parse_command can return something else than a (verb, argument) pair (e.g. None for a blank line): the dispatcher re-arms the command read only for tuple results, "
+           "so the session stops reading its control socket and holds its slot, user and table entry until the server is closed", construct="parse_command:non-pair return")
+    d = p.dispatcher()
+    rearm = [c for c in walk_no_nested(d) if isinstance(c, ast.Call) and is_self_call(c, {"parse_command"})]
+    ctx.ob("C19.PAIR", d, "the dispatcher starts the command reader at session start and after each parsed command", len(rearm) >= 2,
+           "the dispatcher does not re-arm the command reader", construct="dispatcher:re-arm")
+
+
 def rule_release(ctx):
     """'...and releases that session's resources': the unconditional cleanup of C10/C12 is a clause of C19 as well"""
     from .c10 import rule_finally
@@ -313,4 +333,4 @@ def rule_release(ctx):
     ctx.borrow(rule_fields, {"C12.FIELDS": "C19.RELEASE"})
 
 
-RULES = [rule_funnel, rule_nodrop, rule_srv, rule_eof, rule_dot, rule_release]
+RULES = [rule_funnel, rule_nodrop, rule_srv, rule_eof, rule_dot, rule_release, rule_noswallow]
